@@ -234,7 +234,7 @@ class StructShim:
                 raise _struct.error("required argument is not an integer")
             n, signed = self._ints[fmt]
             lo, hi = (-(1 << (8 * n - 1)), (1 << (8 * n - 1))) if signed else (0, 1 << (8 * n))
-            v = SymInt(bv(v))
+            v = SymInt(bv(v), sym.iv(v))
             if not (v >= lo and v < hi):
                 raise _struct.error("argument out of range")
             return SymBytes([z3.Extract(8 * i + 7, 8 * i, v.t) for i in range(n)])
